@@ -68,6 +68,24 @@ CLAIMED.update({
     ref="3.8"),
 })
 
+# worlds added after the seeded-change rounds 4 and 5 (appended to the level texts)
+MORE = {
+ "C04": "; also constrained types called directly with operator-hostile objects (__len__/__lt__/__mod__/__iter__ as hook fault sites), hostile scalars behind one container level, *args: Leaf, leaf return/yield types, non-mapping and hash-hostile inputs of discriminated fields",
+ "C06": "; also data given as one positional mapping with a key that is not a str, un-annotated **kwargs with Options(override=True)",
+ "C07": "; also an Any-typed field with a type-sensitive dependant, a property that depends on a property, plans without any required field (clear()/popitem() go all the way), bool arguments judged by exact type",
+ "C08": "; also ignore_result / ignore_params decorators, yielded None, a richer signature (constrained *rest values, keyword-only Param default), a bare method of a class decorated with @utype.parse",
+ "C10": "; also positional-only parameters (left out / given), constrained *args types, duplicate report entries",
+ "C11": "; also fixed tuples with typed surplus items (preserve only), aliased fields, typed a/*args/**kwargs, dependencies on other generated fields, discriminated fields, an aliased keyword parameter with dependencies",
+ "C16": "; also a class criterion and a metaclass criterion in one registration; threaded runs also use profiled write cuts (below)",
+ "C17": "; also references two generic levels deep, Options(addition=...) by reference, discriminated unions over later classes, one generic with two reference-bearing arguments, local sibling classes, a self-referencing class nested in a class body",
+ "C19": "; also empty containers of the declared type as inputs and one input object parsed twice",
+ "C20": "; also a subclass whose base holds the pending references first-parsed by every thread; anchor-cut schedules (stop a writer before a chosen store into shared state - profiled in a twin world -, run another thread for whole operations or up to a chosen read, hand control back to the stopped writer)",
+}
+for _k, _v in MORE.items():
+    CLAIMED[_k]["level"] += _v
+CLAIMED["C20"]["note"] = CLAIMED["C20"]["note"].replace("races that need two narrow windows are hit ~2 per 10000 runs (thorough tier)", "races that need two narrow windows are reached through the anchor-cut schedules (the three seeded ones within the quick tier's 6000 runs)")
+CLAIMED["C08"]["note"] = CLAIMED["C08"]["note"].replace("the binding clause of C08 (a pure function of signature and call) is NOT decided", "the binding clause of C08 (a pure function of signature and call) is NOT decided beyond the two signatures the worlds use")
+
 NA = {
  "C01": "pure function of (declaration, options, input): no schedule, history, fault or knob can change the verdict; sampling inputs would be property-based testing, not simulation",
  "C02": "biconditional over the value domain of each constraint; pure",
